@@ -3,6 +3,7 @@
 package tls
 
 import (
+	"bytes"
 	"crypto/mlkem"
 	"errors"
 	"sync"
@@ -228,6 +229,20 @@ func VerifWriteRecord(c *Conn, typ uint8, data []byte) error {
 	defer c.out.Unlock()
 	_, err := c.writeRecordLocked(recordType(typ), data)
 	return err
+}
+
+// VerifReadHandshake reads the next handshake message from the connection under its
+// current read protection and returns the raw message bytes, bypassing the handshake
+// state machine.  It lets a harness peer that speaks through a real server Conn see what
+// its client sends after the handshake (a renegotiation ClientHello).
+func VerifReadHandshake(c *Conn) ([]byte, error) {
+	c.in.Lock()
+	defer c.in.Unlock()
+	var raw bytes.Buffer
+	if _, err := c.readHandshake(&raw); err != nil {
+		return nil, err
+	}
+	return raw.Bytes(), nil
 }
 
 // verifSplitShare / verifHybridEncap give the hooked server the server side of
